@@ -19,7 +19,9 @@ from props.C11 import sym_topic_actor
 from props.C08 import sym_topic_message
 from props.C16 import default_reply
 
-OUTSIDE = ['starvation / fairness of the tokio scheduler', 'the gRPC layer (tonic, h2) and the push loop', 'the blocking Pull wait limit (a tokio timer)']
+OUTSIDE = ['starvation / fairness of the tokio scheduler', 'the gRPC layer (tonic, h2) and the push loop',
+           'the tokio timer behind the blocking Pull wait limit (C07.e decides that the request is bounded by one timer started with it)',
+           'more than one caller / one request at a time in the termination obligations C07.d; a full mailbox (that is the known finding)']
 ASSUMPTIONS = ['an actor loop handles one request at a time (A1): while it awaits inside a handler it takes nothing else from its mailbox',
                'a bounded mailbox can be saturated by concurrent clients']
 
